@@ -28,8 +28,13 @@ def main(tier):
         cases = [(i, s) for i, s, _ in attr.valid_pool(rng, n_valid)]
         cases += [(10000 + i, into_heavy(rng, i)) for i in range(n_into)]
         runs = [attr.expand_real(cases, repeat=repeat)]
-        for _ in range(procs - 1):
-            runs.append(attr.expand_real(cases))          # a fresh process: fresh RandomState
+        for k in range(procs - 1):
+            # a fresh process (fresh hash seeds) that meets the inputs in another order: what was expanded before differs
+            order = list(cases)
+            random.Random(common.seed() * 1000 + k).shuffle(order)
+            if k == 0:
+                order = list(reversed(cases))
+            runs.append(attr.expand_real(order))
         model = attr.expand_model(runs[0])
     except (common.BuildError, RuntimeError) as e:
         tie["broken"].append("B3: " + str(e)[:500])
@@ -81,7 +86,7 @@ def main(tier):
     tie["failing"] = tie["failing"][:4]
     tie["broken"] = tie["broken"][:3]
     tie["rule"] = ("valid definitions of every trait (pool of the behavioural generators) plus definitions with 2-4 Into targets; each "
-                   "expanded %d times in one process and once in each of %d further processes (fresh hash seeds); all token streams "
+                   "expanded %d times in one process and once in each of %d further processes (fresh hash seeds, the inputs met in reversed / shuffled order so that earlier expansions differ); all token streams "
                    "and diagnostics must coincide, and the impl order must be the model's; a sample of the accepted inputs is also expanded by the real proc-macro in several rustc "
                    "processes (-Zunpretty=expanded) and the printed expansions compared. distinct_nontrivial = inputs with >=2 impl items" % (repeat + 1, procs - 1))
     tie["samples"] = [{"rust_source": s, "tokens": (runs[0][i].get("tokens") or "")[:300]} for i, s in cases[-2:]]
